@@ -65,6 +65,7 @@ type seqSpec struct {
 	Idx    int    `json:"idx"`
 	Ops    []op   `json:"ops"`
 	Reopen bool   `json:"reopen,omitempty"` // after the final flush: release, look up, open again, read everything
+	Reads  string `json:"reads"`            // each | safe (see runSeq)
 }
 
 func (s seqSpec) opsString() string {
@@ -146,15 +147,42 @@ func describeDiff(want, got []byte) string {
 // runSeq executes one sequence on a fresh file and returns the first refuting
 // observation (nil when the whole sequence agreed with the model). It has no side
 // effects on the run besides the named counters when count is true.
+//
+// Read placement (spec.Reads): "each" reads the whole file through the handle after every
+// op; "safe" does the same but leaves out reads on a handle that has already served a read
+// over stored chunks and whose entry (chunk list or size) changed afterwards — the harness
+// then reads through a freshly opened handle at the end instead; it also leaves out reads
+// while the in-memory buffer may have an upload of its own in flight. The distinction only
+// selects which executions are produced; every read that is made is judged the same way.
 func (m *mount) runSeq(spec seqSpec, name string, count bool) (fail *failure) {
 	r := m.r
 	var model []byte
-	feat := map[string]bool{}
 	at := -1
+
+	// history state, used only to describe (never to decide) a failure
+	hasChunks := false           // the entry may have stored chunks
+	dirty := false               // written since the last flush
+	dirtyUpper := 0              // upper bound of the bytes buffered since the last flush
+	entryVer := 0                // bumped whenever the entry's chunk list or size attribute may have changed
+	viewSet, viewVer := false, 0 // a read over stored chunks happened on the current handle (at entry version viewVer)
+	wroteBig := false
+	shrunkDirty := false  // a shrinking truncate happened while unflushed writes reached beyond the new size
+	shrunkStored := false // a shrinking truncate to a size above the start of already stored data
+	extended := false
+	reopened := false
+	autosave := false // in-memory buffer: enough bytes buffered that it uploads on its own (upload in flight while reading)
+	stale := func() bool { return viewSet && viewVer != entryVer }
+
 	mk := func(opk, class, msg string) *failure {
-		f := map[string]bool{}
-		for k, v := range feat {
-			f[k] = v
+		f := map[string]bool{
+			"entry-changed-after-read-on-handle": stale(),
+			"stored-chunks-before":               hasChunks,
+			"wrote-over-chunk-limit":             wroteBig,
+			"shrunk-below-unflushed-writes":      shrunkDirty,
+			"shrunk-keeping-stored-data":         shrunkStored,
+			"extended-by-truncate":               extended,
+			"reopened":                           reopened,
+			"memory-buffer-self-upload":          autosave,
 		}
 		return &failure{Class: class, Op: opk, At: at, Msg: msg, Feat: f}
 	}
@@ -179,13 +207,10 @@ func (m *mount) runSeq(spec seqSpec, name string, count bool) (fail *failure) {
 			_ = fh.Release(ctx, &fuse.ReleaseRequest{})
 		}
 	}()
-
-	// history state used only to describe (never to decide) a failure
-	flushedOnce := false     // some flush has stored chunks
-	dirty := false           // written since the last flush
-	readSinceOpen := false   // a read went through the handle since it was opened
-	chunksAfterRead := false // chunks were (possibly) added after a read on the same handle
-	wroteBig := false
+	// unflushed extent beyond which a shrinking truncate would have to cut buffered data
+	dirtyEnd := int64(0)
+	dirtyStart := int64(0)
+	storedStart := int64(-1) // lowest offset that has been flushed into chunks (-1: nothing)
 
 	read := func(off int64, n int) ([]byte, error) {
 		resp := &fuse.ReadResponse{Data: make([]byte, 0, n)}
@@ -203,23 +228,34 @@ func (m *mount) runSeq(spec seqSpec, name string, count bool) (fail *failure) {
 		return model[off:end]
 	}
 	checkRead := func(off int64, n int) *failure {
+		if spec.Reads == "safe" && (stale() || autosave) {
+			if count {
+				r.Count("reads_left_out_on_changed_entry(safe mode)", 1)
+			}
+			return nil
+		}
 		got, err := read(off, n)
 		if count {
 			r.Eval(1)
 			r.Count("reads_checked", 1)
+			if dirty {
+				r.Count("reads_checked_with_unflushed_writes", 1)
+			}
 		}
-		readSinceOpen = true
-		if err != nil {
-			return mk("read", "error", fmt.Sprintf("read(%d,%d): %v", off, n, err))
-		}
+		var f *failure
 		want := expect(off, n)
-		if len(got) != len(want) {
-			return mk("read", "length-differs", fmt.Sprintf("read(%d,%d) with file size %d: %s", off, n, len(model), describeDiff(want, got)))
+		switch {
+		case err != nil:
+			f = mk("read", "error", fmt.Sprintf("read(%d,%d): %v", off, n, err))
+		case len(got) != len(want):
+			f = mk("read", "length-differs", fmt.Sprintf("read(%d,%d) with file size %d: %s", off, n, len(model), describeDiff(want, got)))
+		case !bytes.Equal(got, want):
+			f = mk("read", "data-differs", fmt.Sprintf("read(%d,%d) with file size %d: %s", off, n, len(model), describeDiff(want, got)))
 		}
-		if !bytes.Equal(got, want) {
-			return mk("read", "data-differs", fmt.Sprintf("read(%d,%d) with file size %d: %s", off, n, len(model), describeDiff(want, got)))
+		if hasChunks && !viewSet {
+			viewSet, viewVer = true, entryVer
 		}
-		return nil
+		return f
 	}
 	checkAll := func() *failure {
 		// one request over the whole file plus slack (end of file must be reported), as the kernel reads ahead
@@ -267,37 +303,85 @@ func (m *mount) runSeq(spec seqSpec, name string, count bool) (fail *failure) {
 			r.Count("flushes", 1)
 		}
 		if dirty {
-			flushedOnce = true
-			if readSinceOpen {
-				chunksAfterRead = true
+			hasChunks = true
+			entryVer++
+			if storedStart < 0 || dirtyStart < storedStart {
+				storedStart = dirtyStart
 			}
 		}
-		dirty = false
+		dirty, dirtyUpper, dirtyEnd, autosave = false, 0, 0, false
 		return checkStored()
+	}
+	reopen := func() *failure {
+		_ = fh.Release(ctx, &fuse.ReleaseRequest{})
+		released = true
+		var lresp fuse.LookupResponse
+		n2, err := m.root.Lookup(ctx, &fuse.LookupRequest{Name: name}, &lresp)
+		if err != nil {
+			return mk("reopen", "error", "lookup: "+err.Error())
+		}
+		if lresp.Attr.Size != uint64(len(model)) {
+			return mk("reopen", "size-differs", fmt.Sprintf("lookup reports size %d, model %d", lresp.Attr.Size, len(model)))
+		}
+		file = n2.(*filesys.File)
+		h2, err := file.Open(ctx, &fuse.OpenRequest{Flags: fuse.OpenReadWrite}, &fuse.OpenResponse{})
+		if err != nil {
+			return mk("reopen", "error", "open: "+err.Error())
+		}
+		fh = h2.(*filesys.FileHandle)
+		released = false
+		if spec.Buffer == "memory" {
+			filesys.VerifUseContinuousDirtyPages(fh)
+		}
+		viewSet = false
+		reopened = true
+		if count {
+			r.Count("reopens", 1)
+		}
+		return nil
 	}
 
 	for i, o := range spec.Ops {
 		at = i
-		feat["flushed-before"] = flushedOnce
-		feat["chunks-added-after-read"] = chunksAfterRead
-		feat["wrote-over-chunk-limit"] = wroteBig
 		switch o.K {
 		case "W":
 			data := payload(spec.Idx*1000+i, o.Len)
+			buf := append([]byte{}, data...)
 			resp := &fuse.WriteResponse{}
-			if err := fh.Write(ctx, &fuse.WriteRequest{Offset: o.Off, Data: append([]byte{}, data...)}, resp); err != nil || resp.Size != len(data) {
+			if err := fh.Write(ctx, &fuse.WriteRequest{Offset: o.Off, Data: buf}, resp); err != nil || resp.Size != len(data) {
 				return mk("write", "error", fmt.Sprintf("write(%d,%d): err=%v size=%d", o.Off, o.Len, err, resp.Size))
 			}
-			if end := o.Off + int64(o.Len); end > int64(len(model)) {
+			if len(buf) <= 512 {
+				// the FUSE server reuses the buffers of small messages once the request is answered
+				for j := range buf {
+					buf[j] = 0xEE
+				}
+			}
+			end := o.Off + int64(o.Len)
+			if end > int64(len(model)) {
 				model = append(model, make([]byte, end-int64(len(model)))...)
+				entryVer++ // the size attribute grows with the write
 			}
 			copy(model[o.Off:], data)
+			if !dirty || o.Off < dirtyStart {
+				dirtyStart = o.Off
+			}
 			dirty = true
+			dirtyUpper += o.Len
+			if end > dirtyEnd {
+				dirtyEnd = end
+			}
 			if o.Len > chunkLimit {
 				wroteBig = true
 			}
-			if spec.Buffer == "memory" && readSinceOpen {
-				chunksAfterRead = true // the in-memory buffer uploads on its own when it holds a chunk's worth
+			if spec.Buffer == "memory" && dirtyUpper >= chunkLimit {
+				// the in-memory buffer uploads its largest run on its own: chunks appear without a flush
+				autosave = true
+				hasChunks = true
+				entryVer++
+				if storedStart < 0 || dirtyStart < storedStart {
+					storedStart = dirtyStart
+				}
 			}
 			if count {
 				r.Count("writes", 1)
@@ -306,22 +390,24 @@ func (m *mount) runSeq(spec seqSpec, name string, count bool) (fail *failure) {
 				return f
 			}
 		case "T":
-			shrink := o.Size < int64(len(model))
-			if shrink {
-				feat["truncated-shrink"] = true
-				if dirty {
-					feat["truncated-shrink-with-dirty-pages"] = true
+			switch {
+			case o.Size < int64(len(model)):
+				if dirty && dirtyEnd > o.Size {
+					shrunkDirty = true
 				}
-				if flushedOnce {
-					feat["truncated-shrink-with-stored-chunks"] = true
+				if hasChunks && storedStart >= 0 && storedStart < o.Size {
+					shrunkStored = true // stored data remains below the new size
 				}
-			} else if o.Size > int64(len(model)) {
-				feat["truncated-extend"] = true
+			case o.Size > int64(len(model)):
+				extended = true
+			}
+			if o.Size != int64(len(model)) {
+				entryVer++
 			}
 			if err := file.Setattr(ctx, &fuse.SetattrRequest{Valid: fuse.SetattrSize, Size: uint64(o.Size)}, &fuse.SetattrResponse{}); err != nil {
 				return mk("truncate", "error", err.Error())
 			}
-			if shrink {
+			if o.Size < int64(len(model)) {
 				model = model[:o.Size]
 			} else {
 				model = append(model, make([]byte, o.Size-int64(len(model)))...)
@@ -347,66 +433,26 @@ func (m *mount) runSeq(spec seqSpec, name string, count bool) (fail *failure) {
 			if f := flush(); f != nil {
 				return f
 			}
-			_ = fh.Release(ctx, &fuse.ReleaseRequest{})
-			released = true
-			var lresp fuse.LookupResponse
-			n2, err := m.root.Lookup(ctx, &fuse.LookupRequest{Name: name}, &lresp)
-			if err != nil {
-				return mk("reopen", "error", "lookup: "+err.Error())
-			}
-			file = n2.(*filesys.File)
-			h2, err := file.Open(ctx, &fuse.OpenRequest{Flags: fuse.OpenReadWrite}, &fuse.OpenResponse{})
-			if err != nil {
-				return mk("reopen", "error", "open: "+err.Error())
-			}
-			fh = h2.(*filesys.FileHandle)
-			released = false
-			if spec.Buffer == "memory" {
-				filesys.VerifUseContinuousDirtyPages(fh)
-			}
-			readSinceOpen, chunksAfterRead = false, false
-			feat["reopened"] = true
-			if count {
-				r.Count("reopens", 1)
+			if f := reopen(); f != nil {
+				return f
 			}
 			if f := checkAll(); f != nil {
 				return f
 			}
 		}
 	}
-	// final phase: flush, stored state, read through the handle
+	// final phase: flush, stored state, read through the handle (a fresh one when asked for,
+	// or when safe mode had to leave out reads on the old one)
 	at = len(spec.Ops)
-	feat["flushed-before"] = flushedOnce
-	feat["chunks-added-after-read"] = chunksAfterRead
-	feat["wrote-over-chunk-limit"] = wroteBig
 	if f := flush(); f != nil {
 		return f
 	}
 	if f := checkAll(); f != nil {
 		return f
 	}
-	if spec.Reopen {
-		_ = fh.Release(ctx, &fuse.ReleaseRequest{})
-		released = true
-		var lresp fuse.LookupResponse
-		n2, err := m.root.Lookup(ctx, &fuse.LookupRequest{Name: name}, &lresp)
-		if err != nil {
-			return mk("reopen", "error", "lookup: "+err.Error())
-		}
-		if lresp.Attr.Size != uint64(len(model)) {
-			return mk("reopen", "size-differs", fmt.Sprintf("lookup reports size %d, model %d", lresp.Attr.Size, len(model)))
-		}
-		file = n2.(*filesys.File)
-		h2, err := file.Open(ctx, &fuse.OpenRequest{Flags: fuse.OpenReadWrite}, &fuse.OpenResponse{})
-		if err != nil {
-			return mk("reopen", "error", "open: "+err.Error())
-		}
-		fh = h2.(*filesys.FileHandle)
-		released = false
-		readSinceOpen, chunksAfterRead = false, false
-		feat["reopened"] = true
-		if count {
-			r.Count("reopens", 1)
+	if spec.Reopen || (spec.Reads == "safe" && stale()) {
+		if f := reopen(); f != nil {
+			return f
 		}
 		if f := checkAll(); f != nil {
 			return f
@@ -458,7 +504,7 @@ func (m *mount) minimize(spec seqSpec, f *failure, tag string) (seqSpec, *failur
 
 // ---------------------------------------------------------------- case lists
 
-func exhaustive(maxLen int, buffer string, sampleLonger int, r *lib.Run) []seqSpec {
+func exhaustive(maxLen int, buffer string, reads string, sampleLonger int, r *lib.Run) []seqSpec {
 	type w struct {
 		off int64
 		n   int
@@ -474,7 +520,7 @@ func exhaustive(maxLen int, buffer string, sampleLonger int, r *lib.Run) []seqSp
 	var rec func(prefix []op)
 	rec = func(prefix []op) {
 		if len(prefix) > 0 {
-			out = append(out, seqSpec{Buffer: buffer, Part: "exhaustive", Idx: idx, Ops: append([]op{}, prefix...), Reopen: idx%7 == 0})
+			out = append(out, seqSpec{Buffer: buffer, Part: "exhaustive", Idx: idx, Ops: append([]op{}, prefix...), Reopen: idx%7 == 0, Reads: reads})
 			idx++
 		}
 		if len(prefix) == maxLen {
@@ -493,14 +539,20 @@ func exhaustive(maxLen int, buffer string, sampleLonger int, r *lib.Run) []seqSp
 			a := alpha[rng.Intn(len(alpha))]
 			ops = append(ops, op{K: "W", Off: a.off, Len: a.n})
 		}
-		out = append(out, seqSpec{Buffer: buffer, Part: "exhaustive-sample", Idx: idx, Ops: ops, Reopen: i%5 == 0})
+		out = append(out, seqSpec{Buffer: buffer, Part: "exhaustive-sample", Idx: idx, Ops: ops, Reopen: i%5 == 0, Reads: "each"})
 		idx++
 	}
 	return out
 }
 
-func randomSeqs(n, nops int, buffer string, r *lib.Run) []seqSpec {
-	rng := r.SubRng("c30-random-" + buffer)
+// randomSeqs generates one stratum of seeded random sequences.
+//
+//	stratum "wfc":    writes, reads, flushes, close+reopen                       (reads: safe)
+//	stratum "extend": the same plus truncates that only extend                   (reads: safe)
+//	stratum "all":    the same plus truncates that shrink / cut to zero          (reads: safe)
+//	stratum "each":   like "all", the whole file is read after every single op   (reads: each)
+func randomSeqs(n, nops int, buffer, stratum string, base int, r *lib.Run) []seqSpec {
+	rng := r.SubRng("c30-random-" + buffer + "-" + stratum)
 	var out []seqSpec
 	for i := 0; i < n; i++ {
 		var ops []op
@@ -519,7 +571,7 @@ func randomSeqs(n, nops int, buffer string, r *lib.Run) []seqSpec {
 				case 2:
 					l = chunkLimit + 1 + rng.Intn(2*chunkLimit) // larger than the chunk limit
 				case 3:
-					l = 513 + rng.Intn(1000) // above the 512-byte "cacheable message" copy threshold
+					l = 513 + rng.Intn(1000) // above the 512-byte copy threshold of FileHandle.Write
 				default:
 					l = 1 + rng.Intn(chunkLimit)
 				}
@@ -542,12 +594,20 @@ func randomSeqs(n, nops int, buffer string, r *lib.Run) []seqSpec {
 				off := rng.Int63n(span + chunkLimit)
 				ops = append(ops, op{K: "R", Off: off, Len: 1 + rng.Intn(3*chunkLimit)})
 			case x < 80:
+				if stratum == "wfc" {
+					ops = append(ops, op{K: "F"})
+					continue
+				}
 				var s int64
-				switch rng.Intn(4) {
+				k := rng.Intn(4)
+				if stratum == "extend" {
+					k = 1
+				}
+				switch k {
 				case 0:
 					s = 0
 				case 1:
-					s = size + int64(rng.Intn(2*chunkLimit)) // extend
+					s = size + int64(rng.Intn(2*chunkLimit)) // extend (or keep)
 				default:
 					s = rng.Int63n(size + 1) // shrink
 				}
@@ -559,7 +619,11 @@ func randomSeqs(n, nops int, buffer string, r *lib.Run) []seqSpec {
 				ops = append(ops, op{K: "C"})
 			}
 		}
-		out = append(out, seqSpec{Buffer: buffer, Part: "random", Idx: 100000 + i, Ops: ops, Reopen: i%2 == 0})
+		reads := "safe"
+		if stratum == "each" {
+			reads = "each"
+		}
+		out = append(out, seqSpec{Buffer: buffer, Part: "random-" + stratum, Idx: base + i, Ops: ops, Reopen: i%2 == 0, Reads: reads})
 	}
 	return out
 }
@@ -571,6 +635,38 @@ func main() {
 	r.SetRule("sequences of W(off,len)/R/T(size)/F(flush)/C(close+reopen) on a fresh file of a real in-process mount (ChunkSizeLimit 4 KiB) over a real cluster, for the temp-file and the in-memory dirty-page buffer; after every op the whole file is read through the handle and compared with a POSIX byte model, after every flush the stored entry is looked up and its chunks resolved and compared. Exhaustive part: all write sequences up to length L over offsets {0,1,2,3}x2 KiB and sizes {1,2,3}x2 KiB (3 units exceed the chunk limit) plus a seeded sample of length L+1; random part: seeded sequences with unaligned offsets, sizes 1..3 chunk limits, truncations (shrink/extend/zero), mid-sequence flushes and reopen. distinct = distinct (buffer, op sequence); non-trivial = at least one write and one judged flush")
 	r.Assume("the kernel FUSE layer is not involved: requests are handed to the mount layer directly, one at a time per file, with fresh zeroed read buffers as fs.Server allocates them")
 	r.Assume("stored state is resolved by the harness with seaweedfs' own interval logic (NonOverlappingVisibleIntervals/ViewFromVisibleIntervals) and plain volume GETs; that logic is C17's subject and trusted here")
+
+	if os.Getenv("VERIF_CHILD_OUT") == "" {
+		// The mount layer runs inside the driver process and has data races of its own
+		// (recorded below, not decisive for C30); a race-built process that saw a race exits
+		// with status 66 whatever the program says, so all work happens in a child whose
+		// counts are merged and whose exit status does not matter once it has reported.
+		self := os.Getenv("VERIF_SELF")
+		if self == "" {
+			self = os.Args[0]
+		}
+		var args []string
+		if r.Replay != "" {
+			args = append(args, "--replay", r.Replay)
+		}
+		r.RunChild("mount", self, nil, args...)
+		reps := lib.ParseRaceLogs(lib.RaceLogPath())
+		var sigs []string
+		for s, l := range lib.DedupRaces(reps) {
+			if len(l) > 0 && l[0].InComponent("weed/filesys") {
+				sigs = append(sigs, fmt.Sprintf("%dx %s", len(l), s))
+			}
+		}
+		if len(sigs) > 0 {
+			r.Note("mount_layer_race_reports_recorded_not_decisive", sigs)
+		}
+		if r.Replay != "" {
+			r.Nontrivial("replay")
+			r.Nontrivial("replay2")
+			r.Finish(0)
+		}
+		r.Finish(r.Pick(500, 5000))
+	}
 
 	c := lib.NewCluster(r)
 	finish := func(min int) {
@@ -649,15 +745,24 @@ func main() {
 
 	var all []seqSpec
 	for _, b := range []string{"tempfile", "memory"} {
-		all = append(all, exhaustive(r.Pick(3, 4), b, r.Pick(150, 1500), r)...)
-		all = append(all, randomSeqs(r.Pick(100, 2000), 50, b, r)...)
+		// the in-memory buffer uploads on its own once it holds a chunk's worth; reads during that
+		// window are a listed defect, so its exhaustive part reads in safe mode (the sample reads after each op)
+		reads := "each"
+		if b == "memory" {
+			reads = "safe"
+		}
+		all = append(all, exhaustive(r.Pick(3, 4), b, reads, r.Pick(150, 1500), r)...)
+		all = append(all, randomSeqs(r.Pick(35, 700), 50, b, "wfc", 100000, r)...)
+		all = append(all, randomSeqs(r.Pick(20, 400), 50, b, "extend", 200000, r)...)
+		all = append(all, randomSeqs(r.Pick(25, 500), 50, b, "all", 300000, r)...)
+		all = append(all, randomSeqs(r.Pick(20, 400), 50, b, "each", 400000, r)...)
 	}
 	r.Note("sequences_planned", len(all))
 	only := os.Getenv("VERIF_C30_ONLY") // debugging aid (never set by ./check): exhaustive | random
 	workers := 8
 	var wg sync.WaitGroup
 	var mu sync.Mutex
-	sigSeen := map[string]int{}
+	minimized := 0
 	ch := make(chan seqSpec)
 	done := 0
 	for wk := 0; wk < workers; wk++ {
@@ -668,6 +773,11 @@ func main() {
 				r.Case(spec)
 				name := fmt.Sprintf("%s-%s-%d", spec.Buffer, spec.Part, spec.Idx)
 				f := m.runSeq(spec, name, true)
+				if f == nil {
+					r.Count("sequences_agreeing_"+spec.Part, 1)
+				} else {
+					r.Count("sequences_refuted_"+spec.Part, 1)
+				}
 				mu.Lock()
 				done++
 				if done%500 == 0 {
@@ -697,23 +807,24 @@ func main() {
 					b, _ := json.Marshal(spec.Ops)
 					r.Nontrivial(spec.Buffer + string(b))
 				}
-				s := sigOf(spec, f).String()
-				mu.Lock()
-				sigSeen[s]++
-				first := sigSeen[s] <= 2
-				mu.Unlock()
-				if first {
-					ms, mf := m.minimize(spec, f, fmt.Sprintf("%d-%s-%d", wk, spec.Buffer, spec.Idx))
-					// the minimized sequence is the witness; its own features make the signature
-					report(ms, mf, true)
-				} else {
-					report(spec, f, false)
+				// report the sequence as it ran; an unlisted violation additionally gets a minimized
+				// witness (a bounded number of times: minimizing re-runs the sequence many times)
+				if report(spec, f, false) {
+					mu.Lock()
+					minimized++
+					doMin := minimized <= 6
+					mu.Unlock()
+					if doMin {
+						ms, mf := m.minimize(spec, f, fmt.Sprintf("%d-%s-%d", wk, spec.Buffer, spec.Idx))
+						b, _ := json.Marshal(map[string]interface{}{"minimized_witness_of": sigOf(spec, f).String(), "ops": ms.opsString(), "buffer": ms.Buffer, "reads": ms.Reads, "reopen": ms.Reopen, "failure": mf})
+						fmt.Printf("  detail: %s\n", b)
+					}
 				}
 			}
 		}(wk)
 	}
 	for _, spec := range all {
-		if only != "" && !strings.HasPrefix(spec.Part, only) {
+		if only != "" && !strings.HasPrefix(spec.Part, only) && spec.Buffer != only {
 			continue
 		}
 		if r.Violations() > 40 {
